@@ -66,7 +66,9 @@ check("C16", "exploration",
       "a directory/file pair, a ref directly below refs/, symref chains, HEAD) return value, exception class and the full observable state of the real container are "
       "compared with a map model; git for-each-ref/symbolic-ref list the files backend every few steps. check_ref_format is compared on ALL "
       "byte strings of length <=4 (thorough 5) over a 20-symbol alphabet; symref chains of every length 1..8 (through HEAD, packed, to "
-      "present/absent/tag targets) read, listed and written through against what C git resolves. Decides the property on the sequences generated.",
+      "present/absent/tag targets) read, listed and written through against what C git resolves; a second long-lived handle on the same "
+      "directory acts for stretches and is observed sparsely (stale caches); dict/reftable also on sequences that create symbolic refs "
+      "(dangling targets included); directories left under refs/ are attributed to the operation that left them. Decides the property on the sequences generated.",
       "sequential map model of the documented contract; git 2.39.5; reftable vs git not compared (no reftable in git 2.39); NamespacedRefsContainer, peeled values and locked_ref not yet driven",
       "DESIGN.md §5 C16")
 
@@ -116,7 +118,7 @@ check("C07", "fault_enumeration",
       "Schedules: 6 two-writer shapes explored exhaustively (evidence lists runs and 'exhausted'), 2 three-writer shapes under preemption "
       "bound 2 (thorough 3). Monitors: mutual exclusion, foreign-lock disturbance, atomic replacement after every step, payload-at-rename, "
       "loser gets FileLocked. Faults: each call of index/refs/packed-refs/config/loose-object/shallow/commit-graph/named-file writers x 5 "
-      "fault kinds; oracle after the exception was handled and collected: every file complete-old or complete-new, no *.lock left, next "
+      "fault kinds, at OS-visible calls and at user-space buffered writes (a fault at the write that does not repeat at flush); oracle after the exception was handled and collected: every file complete-old or complete-new, no *.lock left, next "
       "writer succeeds; a failed single-lock write leaves the old content; all routines also with core.sharedRepository (chmod in the protocol).",
       "atomicity of a single rename(2)/open(O_EXCL) assumed from POSIX; interleavings at the granularity of interposed Python-level calls; actors are threads with separate objects sharing only the directory",
       "DESIGN.md §5 C07")
@@ -124,8 +126,8 @@ check("C07", "fault_enumeration",
 check("C08", "exploration",
       "runtime linearizability monitoring: histories of ref operations by 2-3 actors, interleaved by a deterministic scheduler at interposed system-call granularity (all schedules within a preemption bound, DFS), recorded at the client boundary with unique values and checked by exhaustive search against a sequential ref map; commit races judged by ancestry of the final tip",
       "All pairs over {cas, cas via HEAD, stale cas, add_if_new, remove_if_equals, set, delete, pack_refs, read, read via HEAD, read of another "
-      "ref, listing (as_dict, checked per key)} x initial state {loose, packed, both, absent} and 5 triples: every schedule with <=2 preemptions (thorough 3) on the ref paths; "
-      "operations that raise must linearise as no-ops; final state read through a fresh container. WorkTree.commit/do_commit races: every "
+      "ref, listing (as_dict, checked per key), set_symbolic_ref of an alias whose value equals the target's} x initial state {loose, packed, both, absent} and 5 triples: every schedule with <=2 preemptions (thorough 3) on the ref paths; "
+      "operations that raise must linearise as no-ops; final state (symbolic refs kept symbolic) read through a fresh container. WorkTree.commit/do_commit races: every "
       "commit id returned without exception must be an ancestor of the final tip.",
       "interleavings at the granularity of interposed Python-level calls on refs/, HEAD, packed-refs*, *.lock; kernel atomicity of rename/O_EXCL assumed; actors are threads with separate container objects",
       "DESIGN.md §5 C08")
@@ -196,7 +198,8 @@ check("C14", "exploration",
       "deleted refs, full repack / prune with the old files put back, files of another repository or pack}; every accelerator alone x writer x "
       "staleness; ref-write sequences on packed vs loose refs (values from a small pool so earlier values recur); long-lived handles that see "
       "an external repack/gc/new pack between warm-up and lookups; query scripts (MissingObjectFinder, get_reachable_commits with/without "
-      "exclude, get_reachable_objects; 1-3 heads, 0-3 excludes, order-sensitive) on a handle holding freshly generated bitmaps vs a bitmap-free copy.",
+      "exclude, get_reachable_objects; 1-3 heads, 0-3 excludes, order-sensitive) on a handle holding freshly generated bitmaps vs a bitmap-free copy; "
+      "ancestor / missing-object / reachable-commit queries that stop at a shallow boundary; a multi-pack-index of another repository.",
       "get_peeled None is 'no cached information' by contract and not compared against a value; C git cannot read idx v3, so the idx is rewritten after the history was continued; bitmaps read back from disk are never consulted on this tree (probe: 0 bitmap-produced answers; find_commit_bitmaps looks hex ids up in a table keyed by binary ids), so bitmap transparency is decided on the handle that generated them (live-bitmap scenario: scripted query sequences with/without in-memory bitmaps, ~600 bitmap-produced answers per quick run)",
       "DESIGN.md §5 C14")
 
@@ -207,7 +210,8 @@ check("C17", "exploration",
       "world-writable/odd modes; gitlinks; pooled names that change type between steps) x drivers {WorkTree.reset_index, reset --hard, "
       "reset --mixed then --hard, checkout, switch, update_working_tree, clone then checkouts, stash pop of a crafted stash, apply_patch of "
       "crafted create/modify/delete/rename/copy/mode/symlink diffs} x core.protectNTFS/protectHFS/symlinks unset/true/false; directed "
-      "sequences (directory then symlink of the same name and the reverse, refused half-way, symlink then gitlink, file/dir/link) with "
+      "sequences (directory then symlink of the same name and the reverse, refused half-way, symlink then gitlink, file/dir/link, a slash-bearing "
+      "name sorted after a subtree so iteration revisits a directory) with "
       "link targets outside the work tree or inside .git, and a final step back to a benign base commit.",
       "a .git write is legitimate only when the innermost dulwich frame is a git-internal writer (file/refs/object_store/pack/reflog/config/repo); set-id/sticky bits on created files are counted, not judged; hostile absolute paths point into the sandbox and the monitor blocks anything that would land beyond it",
       "DESIGN.md §5 C17")
@@ -218,7 +222,7 @@ check("C18", "exploration",
       "names, leading dash, glob characters; nesting up to 2) with empty/text/binary/CRLF/70-300 KB contents, executables, symlinks (dangling, "
       "to directories, self-referential, absolute), and two related trees each (content, exec-bit only, type change with identical bytes, "
       "add/delete, file<->directory); checkout by clone / reset --hard / checkout; restage into the existing or an emptied index; 2-8 random "
-      "edits {modify same/different size, chmod, delete, untracked file/dir, file<->symlink, file<->dir, add, WorkTree.stage, unstage, "
+      "edits {modify same/different size, chmod (incl. partial execute bits such as 0744/0654), delete, untracked file/dir (with empty sub-directories), file<->symlink, file<->dir, add, WorkTree.stage, unstage, "
       "rm --cached, commit, switch, untracked directory whose name is a byte prefix of a tracked sibling} with a status comparison after "
       "each in untracked-files=all and =normal; reset --hard from the edited state must restore every tracked path; up to 4 ordered pairs "
       "of clean branch switches per case.",
